@@ -28,8 +28,10 @@ type Reader struct {
 
 	r         io.ByteReader
 	err       error  // Last read error, if any
+	srcErr    error  // error returned by r, once the input is exhausted
 	current   uint32 // up to 4 bytes of input, valid bits MSB-aligned
 	validBits int    // number of valid bits in current
+	padBits   int    // number of trailing bits in current which are not input
 
 	line    []byte // Current line being decoded
 	refLine []byte // Reference line (previous line) for 2D decoding
@@ -367,8 +369,15 @@ func (r *Reader) peekBits(n int) uint32 {
 
 	for r.validBits < n {
 		var x byte
-		if r.err == nil { // after the first error, use an inifinite stream of zeros
-			x, r.err = r.r.ReadByte()
+		if r.srcErr == nil {
+			x, r.srcErr = r.r.ReadByte()
+		}
+		if r.srcErr != nil {
+			// After the end of the input, use an infinite stream of zeros.
+			// Looking at these bits is harmless (the decoder looks up to 24
+			// bits ahead); only consuming them is an error, see consumeBits.
+			x = 0
+			r.padBits += 8
 		}
 		r.current |= uint32(x) << (24 - r.validBits)
 		r.validBits += 8
@@ -382,6 +391,13 @@ func (r *Reader) consumeBits(n int) {
 	}
 	r.current <<= n
 	r.validBits -= n
+	if r.validBits < r.padBits {
+		// bits beyond the end of the input have been used
+		r.padBits = r.validBits
+		if r.err == nil {
+			r.err = r.srcErr
+		}
+	}
 }
 
 func (r *Reader) readBits(n int) uint32 {
